@@ -7,6 +7,7 @@ package main
 
 import (
 	"fmt"
+	"iter"
 	"reflect"
 	"runtime"
 	"strings"
@@ -77,6 +78,9 @@ type subject struct {
 	err   error      // the returned error
 	nodes []ast.Node // top-level nodes (possibly typed-nil interfaces)
 	pan   any        // non-nil: the call panicked with this value
+	// seqs[i]: ast.Preorder(nodes[i]), built once per subject: a caller that keeps the sequence
+	// value; for a subject shared read-only between tasks the sequence values are shared too
+	seqs  []iter.Seq[ast.Node]
 	entry int
 	path  string
 	input string
@@ -233,6 +237,22 @@ func callEntry(entry int, path, s string) (sub *subject) {
 		panic(fmt.Sprintf("harness: unknown entry %d", entry))
 	}
 	return sub
+}
+
+// initSeqs builds the Preorder sequence values of the top-level nodes.
+func (sub *subject) initSeqs() {
+	if sub.seqs != nil || sub.pan != nil {
+		return
+	}
+	sub.seqs = make([]iter.Seq[ast.Node], len(sub.nodes))
+	for i, n := range sub.nodes {
+		if !isNilNode(n) {
+			func() {
+				defer func() { recover() }()
+				sub.seqs[i] = ast.Preorder(n)
+			}()
+		}
+	}
 }
 
 // isNilNode reports whether n is nil or a typed nil pointer.
@@ -548,6 +568,44 @@ func writeVariant(s sink, sub *subject, v int) {
 					}
 				}
 			})
+		})
+		// a caller that keeps the sequence value and ranges over it again: sequentially after a
+		// break, and nested inside its own loop with an inner break
+		each(func(i int, top ast.Node) {
+			var seq iter.Seq[ast.Node]
+			if i < len(sub.seqs) {
+				seq = sub.seqs[i] // kept (and, for a shared subject, shared) sequence value
+			}
+			if seq == nil {
+				seq = ast.Preorder(top)
+			}
+			c1, c2, c3, inner := 0, 0, 0, 0
+			guard(s, "Preorder(reused)", func() {
+				for range seq {
+					c1++
+					if c1 > k {
+						break
+					}
+				}
+				for range seq {
+					c2++
+				}
+				for range seq {
+					c3++
+					if c3 == 2 {
+						for range seq {
+							inner++
+							if inner >= 2 {
+								break
+							}
+						}
+					}
+				}
+			})
+			s.num(int64(c1))
+			s.num(int64(c2))
+			s.num(int64(c3))
+			s.num(int64(inner))
 		})
 		if len(nodes) > 1 {
 			idx = 0
